@@ -12,7 +12,7 @@ import tempfile
 import types
 
 from mc import dbe, isolate
-from mc.core import pmap, run_forked, short_hash
+from mc.core import pmap, run_forked, short_hash, run_tasks
 from props.c18_bose import EVENT_ORDERS, STRUCTS, with_lineshapes
 from ref import ampgen, goofit_read
 
@@ -410,8 +410,7 @@ def run(ctx):
     light = items[:n_dbe]
     ctx.rng.shuffle(light)
     chunks = [[h] for h in heavy] + [light[i:i + 6] for i in range(0, len(light), 6)]
-    for r in pmap(work, chunks, ctx.workers):
-        ctx.absorb(r)
+    run_tasks(ctx, work, chunks)
     ctx.count(states=stats["nodes"] + len(heavy), transitions=stats["choices"] + len(heavy))
     ctx.part("option-files", scenarios=n_dbe, deviation_bound=bound, per_dimension_max=stats["per_dimension_max"], shipped_model=True, cli=[h[1] for h in heavy[1:]])
     ctx.extra["assumptions_list"] = ["a recording stand-in replaces the goofit module; its API namespace (Variable, Lineshapes, FF, SF_4Body, SpinFactor, Amplitude, DecayInfo4, M_*) is not judged"]
